@@ -89,6 +89,11 @@ __gmp_doprnt_integer (const struct doprnt_funs_t *funs,
   /* the influence of p->prec on mpq is currently undefined */
   zeros = MAX (0, p->prec - slen);
 
+  /* as in C, '#' on an octal conversion only forces a leading zero, which
+     the zeros from the precision already provide */
+  if (p->base == 8 && zeros > 0 && slash == NULL)
+    showbaselen = 0;
+
   /* space left over after actual output length */
   justlen = p->width
     - (strlen(s) + signlen + showbaselen + den_showbaselen + zeros);
